@@ -99,7 +99,13 @@ func Intersection[T comparable](slices ...[]T) []T {
 	intersectionMap := make(map[T]int)
 	result := []T{}
 	for _, s := range slices {
+		// count each element at most once per slice, so duplicates within a slice do not distort the count
+		seen := make(map[T]struct{})
 		for _, e := range s {
+			if _, dup := seen[e]; dup {
+				continue
+			}
+			seen[e] = struct{}{}
 			//nolint:gosimple,staticcheck // This is more readable than the suggested alternative
 			if _, exists := intersectionMap[e]; exists {
 				intersectionMap[e]++
@@ -126,6 +132,7 @@ func Difference[T comparable](s1, s2 []T) []T {
 	for _, e := range s1 {
 		if _, exists := distinctMap[e]; !exists {
 			result = append(result, e)
+			distinctMap[e] = struct{}{} // emit each element once
 		}
 	}
 	return result
@@ -136,7 +143,7 @@ func Disjoin[T comparable](slices ...[]T) []T {
 	if len(slices) == 0 {
 		return []T{}
 	}
-	result := slices[0]
+	result := Distinct(slices[0])
 	removed := []T{}
 	for i, s := range slices {
 		if i == 0 {
